@@ -6,13 +6,15 @@ pub mod c02;
 pub mod c03;
 pub mod c04;
 pub mod rules;
+pub mod c07;
 pub mod c08;
 pub mod c10;
 pub mod c11;
+pub mod c12;
 pub mod c15;
 
 pub fn ids() -> Vec<&'static str> {
-    vec!["C01", "C02", "C03", "C04", "C08", "C10", "C11", "C15"]
+    vec!["C01", "C02", "C03", "C04", "C07", "C08", "C10", "C11", "C12", "C15"]
 }
 
 pub fn get(id: &str, ctx: &Ctx) -> Option<PropertyDef> {
@@ -21,9 +23,11 @@ pub fn get(id: &str, ctx: &Ctx) -> Option<PropertyDef> {
         "C02" => c02::def(ctx),
         "C03" => c03::def(ctx),
         "C04" => c04::def(ctx),
+        "C07" => c07::def(ctx),
         "C08" => c08::def(ctx),
         "C10" => c10::def(ctx),
         "C11" => c11::def(ctx),
+        "C12" => c12::def(ctx),
         "C15" => c15::def(ctx),
         _ => return None,
     })
